@@ -71,6 +71,60 @@ fn deep_program(c: &mut mwv_core::choice::Choices) -> Vec<mwv_core::sx::Sx> {
     mwv_core::sx::read_all(&src).expect("deep capture template parses")
 }
 
+/// The value handed to a continuation is the very object that was passed: a mutable object goes
+/// through k (invoked from tail and non-tail positions, from a for-each callback, through apply,
+/// from inside a procedure) and is then mutated through one name and read through the other.
+fn identity_program(c: &mut mwv_core::choice::Choices) -> Vec<mwv_core::sx::Sx> {
+    let (make, mutate_r, read_p, mutate_p, read_r) = *c.pick(
+        &[
+            ("(list 1 2 3)", "(set-car! ir 30)", "ip", "(set-cdr! ip '(9))", "ir"),
+            ("(vector 1 2 3)", "(vector-set! ir 0 30)", "ip", "(vector-set! ip 2 'z)", "ir"),
+            ("(make-vector 3 0)", "(vector-fill! ir 7)", "ip", "(vector-set! ip 1 (list 'x))", "ir"),
+            ("(list (vector 1) (list 2))", "(vector-set! (car ir) 0 'in)", "ip", "(set-car! (car (cdr ip)) 'deep)", "ir"),
+            ("(let ((n 0)) (lambda () (set! n (+ n 1)) n))", "(ir)", "(ip)", "(ip)", "(ir)"),
+        ][..],
+    );
+    let invoke = *c.pick(
+        &[
+            "(ik ip)",
+            "(+ 1 (ik ip))",
+            "(begin (ik ip) 'not-reached)",
+            "(for-each (lambda (x) (ik x)) (list ip))",
+            "(apply ik (list ip))",
+            "(let ((go (lambda (v) (ik v) 'after))) (list (go ip)))",
+            "(vector (ik ip) 2)",
+        ][..],
+    );
+    let capture = *c.pick(
+        &[
+            "(define ir (call/cc (lambda (k) (set! ik k) 'first)))",
+            "(define ir (car (list (call/cc (lambda (k) (set! ik k) 'first)) 2)))",
+            "(define ir (let ((v (call/cc (lambda (k) (set! ik k) 'first)))) v))",
+        ][..],
+    );
+    let src = format!(
+        "(define ik #f) (define icount 0) (define ip {make}) {capture} \
+         (if (< icount 1) (begin (set! icount (+ icount 1)) {invoke}) 'done) \
+         {mutate_r} {read_p} {mutate_p} {read_r} (list (eq? ir ip) (equal? ir ip) icount)",
+        make = make,
+        capture = capture,
+        invoke = invoke,
+        mutate_r = mutate_r,
+        read_p = read_p,
+        mutate_p = mutate_p,
+        read_r = read_r
+    );
+    mwv_core::sx::read_all(&src).expect("identity template parses")
+}
+
+fn identity_case(ctx: &Ctx, bytes: &[u8]) -> Outcome {
+    let mut c = mwv_core::choice::Choices::new(bytes);
+    let forms = identity_program(&mut c);
+    let mut feats = std::collections::BTreeSet::new();
+    feats.insert("object-identity-through-continuation");
+    check(ctx, &forms, &feats)
+}
+
 fn deep_case(ctx: &Ctx, bytes: &[u8]) -> Outcome {
     let mut c = mwv_core::choice::Choices::new(bytes);
     let forms = deep_program(&mut c);
@@ -87,7 +141,7 @@ impl Prop for C05 {
         Some(("program_cc", 20_000, 1536))
     }
     fn rule(&self) -> &'static str {
-        "sessions from the typed program generator with call/cc productions (escape, normal return, storing k in a global, counter-guarded re-entry 0-3 times from the same form, procedures, loops, for-each callbacks and later top-level forms), each run in the reference interpreter and four VMs (fresh, second fresh, polluted, and one with collections forced at pseudo-random instructions and after every form). Non-trivial: in the reference run a continuation is re-entered after its call/cc returned with at least one already-evaluated operand pending at capture, or is invoked from a later top-level form; distinct by program text."
+        "sessions from the typed program generator with call/cc productions (escape, normal return, storing k in a global, counter-guarded re-entry 0-3 times from the same form, procedures, loops, for-each callbacks and later top-level forms), plus deep captures (up to 600 pending calls) re-entered from later forms and after a failed evaluation, and mutable objects passed through a continuation from tail and non-tail positions and then mutated through one name and read through the other; each run in the reference interpreter and four VMs (fresh, second fresh, polluted, and one with collections forced at pseudo-random instructions and after every form). Non-trivial: in the reference run a continuation is re-entered after its call/cc returned with at least one already-evaluated operand pending at capture, or is invoked from a later top-level form; distinct by program text."
     }
     fn assumptions(&self) -> Vec<&'static str> {
         vec![
@@ -103,6 +157,8 @@ impl Prop for C05 {
         ctx.run_bytes("session", cases, 1536, case);
         let deep = ctx.tier.pick(60u32, 1_500u32);
         ctx.run_bytes("deep", deep, 16, deep_case);
+        let ident = ctx.tier.pick(30u32, 400u32);
+        ctx.run_bytes("identity", ident, 8, identity_case);
     }
     fn replay(&self, ctx: &Ctx, kind: &str, payload: &Value) -> Outcome {
         match kind {
@@ -110,6 +166,7 @@ impl Prop for C05 {
                 Ok(forms) => check(ctx, &forms, &Default::default()),
                 Err(_) => Outcome::Discard,
             },
+            "identity" => identity_case(ctx, &unhex(payload["bytes"].as_str().unwrap_or(""))),
             "deep" => deep_case(ctx, &unhex(payload["bytes"].as_str().unwrap_or(""))),
             _ => case(ctx, &unhex(payload["bytes"].as_str().unwrap_or(""))),
         }
